@@ -3,6 +3,7 @@
 // and the owner (it does what TcpServer::removeConnectionInLoop does).
 #include "interpose.h"
 #include "common.h"
+#include "loopstep.h"
 
 #include "muduo/base/Logging.h"
 #include "muduo/net/Channel.h"
@@ -123,7 +124,6 @@ static void recordPoll(const std::vector<std::pair<int, int> >& v) {
 static int ptrToFd(void* p) { return static_cast<Channel*>(p)->fd(); }
 
 static void dropLog(const char*, int) {}
-static void quitLoop() { g_loop->quit(); }
 
 extern "C" void __assert_fail(const char* assertion, const char* file, unsigned int line, const char* function) __THROW {
   (void)file; (void)line; (void)function;
@@ -151,26 +151,14 @@ static void stLine() {
   emitLine(s);
 }
 
-int main(int argc, char** argv) {
-  bool usePoll = argc > 1 && std::string(argv[1]) == "poll";
-  if (usePoll) setenv("MUDUO_USE_POLL", "1", 1); else unsetenv("MUDUO_USE_POLL");
-  Logger::setLogLevel(Logger::FATAL);   // nothing is decided by log output
-  Logger::setOutput(dropLog);
-  vi::clock().virt = true;
-  vi::emit() = emitLine;
-  vi::pollRecorder() = recordPoll;
-  vi::ptrToFd() = ptrToFd;
-  EventLoop loop;
-  g_loop = &loop;
-  if (socketpair(AF_UNIX, SOCK_STREAM | SOCK_NONBLOCK | SOCK_CLOEXEC, 0, g_sv) != 0) { perror("socketpair"); return 2; }
-  vi::scripts()[g_sv[0]].drainPeer = drainPeer;
-  InetAddress a(1), b(2);
-  g_conn.reset(new TcpConnection(&loop, "conn", g_sv[0], a, b));
-  g_weak = g_conn;
-  g_conn->setConnectionCallback(onConnection);
-  g_conn->setMessageCallback(onMessage);
-  g_conn->setCloseCallback(onClose);
+static bool g_pendingIter = false;
 
+// executes the input operations up to and including the next `iter`; called on the loop
+// thread before every poll (harness/loopstep.h)
+static bool interp() {
+  EventLoop& loop = *g_loop;
+  (void)loop;
+  if (g_pendingIter) { stLine(); flushStep(); g_pendingIter = false; }
   std::string line;
   while (std::getline(std::cin, line)) {
     std::vector<std::string> w = words(line);
@@ -218,18 +206,51 @@ int main(int argc, char** argv) {
         else if (w[i][0] == 'E') q.push_back(vi::Res(vi::Res::ERR, vi::errnoValue(w[i])));
         else q.push_back(vi::Res(vi::Res::COUNT, atol(w[i].c_str())));
       }
+    } else if (op == "ownerDestroy") {
+      // TcpServer::~TcpServer for this connection (on the loop thread)
+      if (g_conn) {
+        TcpConnectionPtr conn(g_conn);
+        g_conn.reset();
+        conn->getLoop()->runInLoop(std::bind(&TcpConnection::connectDestroyed, conn));
+      }
     } else if (op == "advance") {
       vi::advance(atoll(w[1].c_str()));
     } else if (op == "iter") {
-      loop.queueInLoop(quitLoop);
-      loop.wakeup();
-      loop.loop();
+      g_pendingIter = true;
+      return true;
     } else {
       emitLine("bad-op");
     }
     stLine();
     flushStep();
   }
+  // end of input: leave without running destructors (a connection that is still up would
+  // assert in ~TcpConnection)
+  fflush(stdout);
+  _exit(0);
+}
+
+int main(int argc, char** argv) {
+  bool usePoll = argc > 1 && std::string(argv[1]) == "poll";
+  if (usePoll) setenv("MUDUO_USE_POLL", "1", 1); else unsetenv("MUDUO_USE_POLL");
+  Logger::setLogLevel(Logger::FATAL);   // nothing is decided by log output
+  Logger::setOutput(dropLog);
+  vi::clock().virt = true;
+  vi::emit() = emitLine;
+  vi::pollRecorder() = recordPoll;
+  vi::ptrToFd() = ptrToFd;
+  EventLoop loop;
+  g_loop = &loop;
+  if (socketpair(AF_UNIX, SOCK_STREAM | SOCK_NONBLOCK | SOCK_CLOEXEC, 0, g_sv) != 0) { perror("socketpair"); return 2; }
+  vi::scripts()[g_sv[0]].drainPeer = drainPeer;
+  InetAddress a(1), b(2);
+  g_conn.reset(new TcpConnection(&loop, "conn", g_sv[0], a, b));
+  g_weak = g_conn;
+  g_conn->setConnectionCallback(onConnection);
+  g_conn->setMessageCallback(onMessage);
+  g_conn->setCloseCallback(onClose);
+
+  vs::run(&loop, interp);
   // leave without running destructors: a connection that is still up would assert in ~TcpConnection
   fflush(stdout);
   _exit(0);
